@@ -31,3 +31,87 @@ def paging_api():
     fb.method(s, "ListTwo", "ListTwoRequest", "ListTwoResponse", http=("get", "/v1/{parent=shelves/*}/two"))
     fb.method(s, "NotPaged", "NotPagedRequest", "NotPagedResponse", http=("get", "/v1/{parent=shelves/*}/np"))
     return [fb]
+
+
+def client_api():
+    """One API exercising the client-method template branches (C03/C05/C06/C08/C18)."""
+    fb = gen.FileBuilder("google/example/cl/v1/library.proto", "google.example.cl.v1")
+    fb.enum("View", ["VIEW_UNSPECIFIED", "BASIC", "FULL"])
+    fb.message("Shelf", [("name", "string"), ("theme", "string")])
+    fb.message("Book", [("name", "string"), ("author", "string"), ("rating", "int32"),
+                        ("shelf", "msg:Shelf"), ("class", "string")])
+    fb.message("GetBookRequest", [("name", "string"), ("view", "enum:View")])
+    fb.message("CreateBookRequest", [("parent", "string"), ("book", "msg:Book"), ("book_id", "string"),
+                                     ("request_id", "string", {"optional": True, "uuid4": True}),
+                                     ("trace_id", "string", {"uuid4": True})])
+    fb.message("UpdateBookRequest", [("book", "msg:Book"), ("update_mask", "msg:google.protobuf.FieldMask")])
+    fb.message("DeleteBookRequest", [("name", "string"), ("force", "bool")])
+    fb.message("TagBookRequest", [("name", "string"), ("tags", "string", {"repeated": True}),
+                                  ("labels", "string", {"map": ("string", "string")}),
+                                  ("class", "string"), ("from", "int32"), ("view", "enum:View")])
+    fb.message("MoveBookRequest", [("book", "msg:Book"), ("other_shelf", "string")])
+    fb.message("StreamBooksRequest", [("parent", "string")])
+    fb.message("UploadRequest", [("chunk", "string")])
+    fb.message("ImportRequest", [("source", "string")])
+    fb.message("ListBooksRequest", [("parent", "string"), ("page_size", "int32"), ("page_token", "string")])
+    fb.message("ListBooksResponse", [("books", "msg:Book", {"repeated": True}), ("next_page_token", "string")])
+    fb.message("WriteBookRequest", [("name", "string")])
+    fb.message("WriteMetadata", [("progress", "int32")])
+    fb.message("RouteRequest", [("table_name", "string"), ("app_profile_id", "string"), ("book", "msg:Book")])
+    s = fb.service("Library")
+    E = "google.protobuf.Empty"
+    fb.method(s, "GetBook", "GetBookRequest", "Book", http=("get", "/v1/{name=shelves/*/books/*}"), sigs=["name"])
+    fb.method(s, "CreateBook", "CreateBookRequest", "Book", http=("post", "/v1/{parent=shelves/*}/books", "book"),
+              sigs=["parent,book,book_id", "parent,book"])
+    fb.method(s, "UpdateBook", "UpdateBookRequest", "Book",
+              http=("patch", "/v1/{book.name=shelves/*/books/*}", "book"), sigs=["book,update_mask"])
+    fb.method(s, "DeleteBook", "DeleteBookRequest", E, http=("delete", "/v1/{name=shelves/*/books/*}"),
+              sigs=["name"])
+    fb.method(s, "TagBook", "TagBookRequest", "Book", http=("post", "/v1/{name=shelves/*/books/*}:tag", "*"),
+              sigs=["name,tags,labels,class,from"])
+    fb.method(s, "MoveBook", "MoveBookRequest", "Book", http=("post", "/v1/{book.name=shelves/*/books/*}:move", "*"),
+              sigs=["book.name,other_shelf"])
+    fb.method(s, "StreamBooks", "StreamBooksRequest", "Book", http=("get", "/v1/{parent=shelves/*}/books:stream"),
+              sigs=["parent"], sstream=True)
+    fb.method(s, "Upload", "UploadRequest", "Book", cstream=True)
+    fb.method(s, "Chat", "UploadRequest", "Book", cstream=True, sstream=True)
+    fb.method(s, "Import", "ImportRequest", "Book", http=("post", "/v1/books:import", "*"), sigs=["source"])
+    fb.method(s, "CreateChannel", "ImportRequest", "Book", http=("post", "/v1/channels", "*"))
+    fb.method(s, "NoSig", "GetBookRequest", "Book", http=("get", "/v1/{name=shelves/*}/nosig"))
+    # requests from a dependency package
+    fb.method(s, "Ping", E, "Book", http=("get", "/v1/ping"))
+    fb.method(s, "CheckOperation", "google.longrunning.GetOperationRequest", "Book",
+              http=("get", "/v1/{name=operations/*}:check"), sigs=["name"])
+    fb.method(s, "Mask", "google.protobuf.FieldMask", "Book", http=("post", "/v1/mask", "*"), sigs=["paths"])
+    # paged + LRO wiring
+    fb.method(s, "ListBooks", "ListBooksRequest", "ListBooksResponse", http=("get", "/v1/{parent=shelves/*}/books"),
+              sigs=["parent"])
+    fb.method(s, "WriteBook", "WriteBookRequest", "google.longrunning.Operation",
+              http=("post", "/v1/{name=shelves/*/books/*}:write", "*"), sigs=["name"],
+              lro=("Book", "WriteMetadata"))
+    # explicit routing (AIP-4222)
+    fb.method(s, "RouteSimple", "RouteRequest", "Book", http=("post", "/v1/{table_name=projects/*}:r1", "*"),
+              routing=[("app_profile_id", None)])
+    fb.method(s, "RouteRename", "RouteRequest", "Book", http=("post", "/v1/{table_name=projects/*}:r2", "*"),
+              routing=[("app_profile_id", "{routing_id=**}")])
+    fb.method(s, "RouteMulti", "RouteRequest", "Book", http=("post", "/v1/{table_name=projects/*}:r3", "*"),
+              routing=[("table_name", "{routing_id=projects/*}/**"),
+                       ("table_name", "{routing_id=projects/*/instances/*}/**"),
+                       ("app_profile_id", "{profile=*}")])
+    fb.method(s, "RouteNested", "RouteRequest", "Book", http=("post", "/v1/{table_name=projects/*}:r4", "*"),
+              routing=[("book.name", "shelves/*/{book_id=books/*}"), ("table_name", "{table_name=regions/*/zones/*/**}"),
+                       ("book.shelf.name", "{book_id=**}")])
+    return [fb]
+
+
+CLIENT_SERVICE_YAML = {
+    "type": "google.api.Service",
+    "config_version": 3,
+    "name": "example.googleapis.com",
+    "publishing": {
+        "method_settings": [
+            {"selector": "google.example.cl.v1.Library.CreateBook",
+             "auto_populated_fields": ["request_id", "trace_id"]},
+        ]
+    },
+}
